@@ -215,7 +215,7 @@ def m_C07(tier):
                 for purge in ((False,) if alg == 'no' else (False, True)):
                     for init in ('empty', 'seeded_archive'):
                         cfgs.append(C(mod, alg, ms, purge, 'default', 'dict', init))
-    pers = ['file', 'dir', 'sql'] if tier == 'thorough' else ['dir']
+    pers = ['file', 'dir', 'sql', 'filesrc', 'dirjson'] if tier == 'thorough' else ['dir', 'sql']
     for mod in MODULES:
         for alg in (BOUNDED + ('no',) if tier == 'thorough' else ('lfu', 'rr')):
             for b in pers:
@@ -360,7 +360,7 @@ def ev_for(prop, cfg, tier):
     if prop == 'C02':
         return base_events(n, sp, mgmt=True, raises=False) + [('redec',), ('raise', 0, 'Boom')]
     if prop == 'C07':
-        return base_events(n, sp, mgmt=True) + [('raise', 1, 'Boom')]
+        return base_events(n, sp, mgmt=True) + [('raise', 1, 'Boom'), ('aclear',)]
     if prop == 'C15' and cfg.get('unkeyable'):
         return call_events(n, 1) + [('callu', 0), ('callu', 1), ('callu', 3), ('raiseu', 0), ('raiseu', 3), ('raise', 0, 'Boom'), ('clear',), ('clearks',), ('load',)]
     if prop == 'C15':
